@@ -105,10 +105,12 @@ def exec_cli(case):
             flags.append("--bitmap_resolution=300")
         if fmt == "cbdt":
             flags += ["--nouse_pngquant", "--nouse_zopflipng"]
+        if case.get("noclip"):
+            flags.append("--noclip_to_viewbox")  # the clipping step is one of the places that refuse a bad source: the others must too
         r = cli.nanoemoji(w, flags + [str(p) for p in paths])
         out = w / "build" / "Font.ttf"
         if r.returncode == 0:
-            what = f"exit 0 for {CLASSES[cls][0]} ({pos}, {fmt})"
+            what = f"exit 0 for {CLASSES[cls][0]} ({pos}, {fmt}{', --noclip_to_viewbox' if case.get('noclip') else ''})"
             if out.exists():
                 from fontTools.ttLib import TTFont
 
@@ -204,6 +206,8 @@ def run(report, tier, only=None):
         for fmt in fmts:
             for pos in positions:
                 cases.append({"kind": "cli", "cls": cls, "fmt": fmt, "position": pos})
+                if fmts is VECTOR and (tier == "thorough" or pos in ("alone", "middle-of-3")):
+                    cases.append({"kind": "cli", "cls": cls, "fmt": fmt, "position": pos, "noclip": True})
     for cls in ("masters-differ", "masters-superset", "masters-subset", "duplicate-names-in-master"):
         for order in (0, 1):
             cases.append({"kind": "masters", "cls": cls, "order": order})
@@ -224,7 +228,7 @@ def run(report, tier, only=None):
         listing.run(report, cases, execute, timeout=120)
     report.rule = (
         "fault enumeration: 12 defect classes x position of the defective source among 0-2 valid ones (quick: alone + the three positions among two "
-        "valid; thorough: all six) x the colour-format families the class applies to, on the real `nanoemoji` command in a fresh directory "
+        "valid; thorough: all six) x the colour-format families the class applies to (content defects also with --noclip_to_viewbox), on the real `nanoemoji` command in a fresh directory "
         "(must exit non-zero and leave no Font.ttf); two multi-master defect classes x master order; six classes in-process x all applicable formats "
         "of the 13; distinct = class x format"
     )
